@@ -657,7 +657,15 @@ def batching(w, repo):
     n_lim, l_lim, s_lim, cmdlen = g("max_args", 1), g("max_lines", 1), g("max_chars", 0), g("cmdlen", 1)
     want_batches, want_rc = _ref_batching(lens, hard, cfg, n_lim, l_lim, s_lim, cmdlen, outcomes)
     with Sandbox() as d:
-        name = "c" * cmdlen
+        cc = max(1, min(g("chars_cmd", cmdlen), cmdlen))
+        if cc == cmdlen or cmdlen > 4 * cc:
+            name = "c" * cmdlen
+        else:                              # a command name of cmdlen bytes and fewer characters
+            parts, left = [], cmdlen
+            for k in range(cc):
+                w_ = min(4, left - (cc - k - 1))
+                parts.append({1: "c", 2: "\u00e9", 3: "\u20ac", 4: "\U0001f600"}[w_]); left -= w_
+            name = "".join(parts)
         rec = os.path.join(d, name)
         open(rec, "w").write(_REC)
         os.chmod(rec, 0o755)
